@@ -37,7 +37,7 @@ def reproject(ctx, P, view):
             continue
         w = Walker(P, view, keep=lambda e: (e.kind == "call" and e.d["meth"] == "update_all_service_end_dates") or
                    (e.kind == "assign" and (e.d["target"].endswith(".service_start_date") or e.d["target"].endswith(".with_server") or e.d["target"].endswith(".time_left") or e.d["target"].endswith(".date_last_update") or e.d["target"].endswith(".service_time"))),
-                   inline=lambda ev: False)
+                   inline=rules.new_helper)
         for st in w.paths_of(cls, fn):
             if st.status == "raise":
                 continue
@@ -70,7 +70,7 @@ def reproject(ctx, P, view):
 def capacity(ctx, P, view):
     ob = ctx.ob("PSCAP", "newcomer starts iff population <= ps_capacity (population already includes it); at a departure the customer at index ps_capacity - 1 starts iff population >= ps_capacity")
     cls, fn = view.method("begin_service_if_possible_accept")
-    ifs = [x for x in fn.body if isinstance(x, ast.If)]
+    ifs = [x for x in rules.walk(P, view, fn) if isinstance(x, ast.If) and "ps_capacity" in unparse(x.test)]
     f = guards.norm(ifs[0].test, unparse) if ifs else None
     ob.ok("accept-guard", guards.show(f) if f else "?")
     if f != ("not", ("lt", "self.ps_capacity", "self.number_of_individuals")):
@@ -78,7 +78,7 @@ def capacity(ctx, P, view):
                       "a newcomer shares the server iff number_of_individuals <= ps_capacity (at most the sharing capacity are served at once)", loc(fn))
     # population already counts the newcomer: Node.accept increments before dispatch
     acls, afn = view.method("accept")
-    w = Walker(P, view, keep=lambda e: (e.kind == "aug" and e.d["target"] == "self.number_of_individuals") or (e.kind == "call" and e.d["meth"] == "begin_service_if_possible_accept"), inline=lambda ev: False)
+    w = Walker(P, view, keep=lambda e: (e.kind == "aug" and e.d["target"] == "self.number_of_individuals") or (e.kind == "call" and e.d["meth"] == "begin_service_if_possible_accept"), inline=rules.new_helper)
     for st in w.paths_of(acls, afn):
         kinds = [e.kind for e in st.events]
         ob.ok("accept-order:%s" % kinds)
@@ -86,7 +86,7 @@ def capacity(ctx, P, view):
             ctx.violation(ob, "R5.ps-capacity", "%s.accept" % acls.name, " -> ".join(x.text for x in st.events), "population-not-counted-before-test",
                           "the PS capacity test `<=` assumes the newcomer is already counted in number_of_individuals", loc(afn), rules.witness(st))
     cls, fn = view.method("begin_service_if_possible_release")
-    ifs = [x for x in fn.body if isinstance(x, ast.If)]
+    ifs = [x for x in rules.walk(P, view, fn) if isinstance(x, ast.If) and "ps_capacity" in unparse(x.test)]
     f = guards.norm(ifs[0].test, unparse) if ifs else None
     ob.ok("release-guard", guards.show(f) if f else "?")
     if f != ("not", ("lt", "self.number_of_individuals", "self.ps_capacity")):
@@ -99,7 +99,7 @@ def capacity(ctx, P, view):
         ctx.violation(ob, "R5.ps-capacity", "PSNode.begin_service_if_possible_release", got, "fcfs-pick", "the next customer to share the server is the first-come-first-served one, all_individuals[ps_capacity - 1]", loc(fn))
     # release runs the dispatch after the removal (population no longer counts the leaver)
     rcls, rfn = view.method("release")
-    w = Walker(P, view, keep=lambda e: (e.kind == "aug" and e.d["target"] == "self.number_of_individuals") or (e.kind == "call" and e.d["meth"] == "begin_service_if_possible_release"), inline=lambda ev: False, literal_args={"reroute": "False"})
+    w = Walker(P, view, keep=lambda e: (e.kind == "aug" and e.d["target"] == "self.number_of_individuals") or (e.kind == "call" and e.d["meth"] == "begin_service_if_possible_release"), inline=rules.new_helper, literal_args={"reroute": "False"})
     for st in w.paths_of(rcls, rfn):
         kinds = [e.kind for e in st.events]
         if kinds != ["aug", "call"]:
